@@ -422,7 +422,11 @@ func (p *ProofD) revocationAttrIndex() int {
 	params := revocation.Parameters
 	max := new(big.Int).Lsh(big.NewInt(1), params.AttributeSize+params.ChallengeLength+params.ZkStat+1)
 	for idx, i := range p.AResponses {
-		if i.Cmp(max) < 0 {
+		// Attribute 0 is the secret key, which the holder chooses: it never is the revocation
+		// attribute. (Otherwise a holder who takes the value of someone's valid witness as secret
+		// key could prove nonrevocation of that value instead of the credential's revocation
+		// attribute, by making the response of the secret key the only small one.)
+		if idx != 0 && i.Cmp(max) < 0 {
 			return idx
 		}
 	}
